@@ -92,3 +92,32 @@ Proof.
   intros Hm Hd Hw. split; [exact (cs_engine_block tt structs protos msgs m dict Hm Hd Hw)|].
   intros s e gv n. split; [apply cs_handler_reads_b|intro Hs; apply cs_handler_sem; exact Hs].
 Qed.
+
+(* ---------------------------------------------------------------- the whole shipped file *)
+From KV Require Import Proofs.EngineTps Proofs.Shipped16.
+
+Lemma cs_file16_checked : shipped16 dict0 cs_file = Some (render16 cs_file16, cs_file16).
+Proof. vm_compute. reflexivity. Qed.
+
+Lemma cs_file16_block : nth_error cs_file16 45 = Some (TransBlock "    " "    " cs_tbody).
+Proof. vm_compute. reflexivity. Qed.
+
+(* For EVERY table, interface and assignment of user tags admitted for the file: what smgen.Generate's pipeline writes from the WHOLE
+   shipped TEMPLATEInternals.cs is the reference expansion of the file read into the template syntax; its 46th item is the transition
+   block, whose expansion is the class texts of cs_engine_block / C10_handlers_engine. *)
+Lemma cs_file16_opt_eq : cs_file16_opt = Some cs_file16.
+Proof. vm_compute. reflexivity. Qed.
+
+Theorem cs_file_engine (tt : list EngineSM.row) (structs protos msgs : list string) (m : smodel) (a : usertags) :
+  tt_model tt structs protos msgs = Some m -> cs_file_wf tt structs protos msgs a = true ->
+  generate_file m dict0 a cs_file = Some (cs_file_ref tt structs protos msgs a)
+  /\ nth_error cs_file16 45 = Some (TransBlock "    " "    " cs_tbody)
+  /\ ref_item16 (with_user a (elements_of (table_of tt) structs protos msgs)) (TransBlock "    " "    " cs_tbody)
+     = flat_map (cs_class_text (table_of tt)) (cs_classes (table_of tt)).
+Proof.
+  intros Hm Hw. split; [|split; [exact cs_file16_block|]].
+  - unfold cs_file_ref. unfold cs_file_wf in Hw. rewrite cs_file16_opt_eq in Hw.
+    rewrite <- (model_elements_full tt structs protos msgs m Hm). rewrite <- (model_elements_full tt structs protos msgs m Hm) in Hw.
+    exact (shipped_output_user cs_file (render16 cs_file16) cs_file16 cs_file16_checked m a Hw).
+  - cbn [ref_item16 el_tps with_user elements_of]. apply cs_ref_structure.
+Qed.
